@@ -1,11 +1,13 @@
 module github.com/taurusgroup/multi-party-sig/verifharness
 
-go 1.20
-
-require github.com/taurusgroup/multi-party-sig v0.0.0
+go 1.22
 
 require (
-	github.com/cronokirby/saferith v0.33.0 // indirect
+	github.com/cronokirby/saferith v0.33.0
+	github.com/taurusgroup/multi-party-sig v0.0.0
+)
+
+require (
 	github.com/decred/dcrd/dcrec/secp256k1/v4 v4.2.0 // indirect
 	github.com/fxamacker/cbor/v2 v2.4.0 // indirect
 	github.com/klauspost/cpuid/v2 v2.2.5 // indirect
